@@ -20,9 +20,14 @@ for k in sorted(os.listdir(sd)):
     assert st == "", "repo not clean: " + st
     r = subprocess.run(["git", "-C", "/repo", "apply", patch], capture_output=True, text=True)
     if r.returncode != 0:
-        rows.append((k, props[0], "patch does not apply to the current tree", ""))
-        print(rows[-1], flush=True)
-        continue
+        # the code around the patch was repaired since: try a three-way application against the blobs the patch names
+        r = subprocess.run(["git", "-C", "/repo", "apply", "--3way", patch], capture_output=True, text=True)
+        conflict = subprocess.run(["git", "-C", "/repo", "diff", "--name-only", "--diff-filter=U"], capture_output=True, text=True).stdout.strip()
+        if r.returncode != 0 or conflict:
+            subprocess.run(["git", "-C", "/repo", "reset", "-q", "--hard", "HEAD"])
+            rows.append((k, props[0], "patch does not apply to the current tree", ""))
+            print(rows[-1], flush=True)
+            continue
     t0 = time.time()
     try:
         c = subprocess.run(["./check", props[0], "--tier", "quick"], cwd=ROOT, capture_output=True, text=True)
@@ -30,7 +35,7 @@ for k in sorted(os.listdir(sd)):
         rows.append((k, props[0], "caught" if c.returncode == 1 and any(l.startswith("VIOLATION") for l in last) else "NOT CAUGHT (rc=%d)" % c.returncode,
                      (last[-1] if last else "")[:160]))
     finally:
-        subprocess.run(["git", "-C", "/repo", "checkout", "--", "."])
+        subprocess.run(["git", "-C", "/repo", "reset", "-q", "--hard", "HEAD"])
     print(rows[-1], f"{time.time() - t0:.0f}s", flush=True)
 if only:
     print("partial run: REGRESSION.md left as it is")
